@@ -113,6 +113,14 @@ fn prepared(cfg: &IoCfg) -> Emu {
     // two keys in different half-rows stay down during the whole sweep
     e.send_key(rustzx_core::zx::keys::ZXKey::A, true);
     e.send_key(rustzx_core::zx::keys::ZXKey::L, true);
+    // a tape is inserted and stands still at its low level
+    {
+        let mut blk = vec![0x00u8; 19];
+        blk[18] = blk.iter().fold(0, |a, b| a ^ b);
+        let mut tap = vec![19u8, 0];
+        tap.extend_from_slice(&blk);
+        let _ = e.load_tape(rustzx_core::host::Tape::Tap(VAsset::new(tap)));
+    }
     // speaker bit on (border stays black): bit 6 of a ULA read is the tape EAR input, not the speaker latch
     e.verif_write_io(k.ula, 0x10);
     if let Some(x) = e.io_extender() {
